@@ -155,6 +155,9 @@ func run(s Script, v *vt.V) {
 					content = strings.NewReader(string(data))
 				case 4:
 					content = iotest.OneByteReader(bytes.NewReader(data))
+					if len(data) > 1<<20 {
+						content = struct{ io.Reader }{bytes.NewReader(data)} // (millions of one-byte reads only cost time)
+					}
 				case 5:
 					content = iotest.DataErrReader(bytes.NewReader(data))
 				case 6:
